@@ -453,6 +453,16 @@ theorem tornDown_terminate (st : ExecSt) (hnt : st.terminating = false) : TornDo
   obtain ⟨h1, h2, h3, h4⟩ := c05_teardown_std st hnt
   exact ⟨h4, h1, h2, h3⟩
 
+/-- the state after an iteration that gives up (`fail`): `terminate` applied to the state the for-loop left -/
+theorem tornDown_terminate_processed (st : ExecSt) (inbox : List EMsg) (hnt : st.terminating = false) :
+    TornDown (terminate (processMsgs st inbox).1).2 := by
+  rcases processMsgs_state st inbox with ⟨h, _⟩ | ⟨h, _⟩
+  · rw [h]; exact tornDown_terminate st hnt
+  · rw [h]
+    have htt : (terminate st).2.terminating = true := terminateWith_terminating posix st
+    have : terminate (terminate st).2 = ([], (terminate st).2) := terminateWith_of_terminating posix _ htt
+    rw [this]; exact tornDown_terminate st hnt
+
 end AuxN
 
 /-- SHUTDOWN ⇒ TEARDOWN (every executor). A live executor that finds ExecutorShutdown in its queue — whatever else is
@@ -850,10 +860,39 @@ theorem all_torn_down (t : HealthTable) : ∀ (l : List StepN) (s : SysN), InvN 
 
 end AuxN
 
-/-- EVERY EXECUTOR IS TORN DOWN — after normal completion and after a failure alike, any cluster shape, whatever was
-lost on the way. From a start state (`InitN`) run ANY schedule `sched1` (ticks of any executors, deliveries, LOSSES,
-controller iterations) at the end of which `run` has returned or raised; then any further schedule `sched2` in which every
-executor gets to run at least one more iteration. Afterwards every executor has run `terminate` and has no child left. -/
+/-- AN EXECUTOR THAT IS NEVER TOLD TO STOP GIVES UP BY ITSELF (iteration level). Whatever is — or is NOT — in its queue (in
+particular: no ExecutorShutdown, because the controller's message was lost, or the controller is gone), whatever state its
+children are in: the iteration in which `sender.maybe_retry()` raises (its heartbeat / report to the controller was not
+acknowledged within the retry budget) ends with the executor TORN DOWN — `terminate` has run and no child is alive — and an
+ExecutorFailure sent. This is the only route to teardown for an executor whose ExecutorShutdown was lost; that the retry
+budget IS eventually exhausted when the controller has vanished is a property of ReliableSender (C06) and of wall-clock time,
+observed on real clusters (~17 s), not proved here; `c05_all_executors_torn_down` does not cover this case (its model
+delivers ExecutorShutdown straight into the inboxes). -/
+theorem c05_untold_executor_gives_up (st : ExecSt) (inbox : List EMsg) (hb : Bool) (hnt : st.terminating = false) :
+    TornDown (tickEnv Gen.healthTable st inbox hb true).1 ∧
+    CMsg.executorFailure st.host ∈ (tickEnv Gen.healthTable st inbox hb true).2.filterMap EOut.ctrl? := by
+  have htd := AuxN.tornDown_terminate_processed st inbox hnt
+  unfold tickEnv
+  simp only [hnt, Bool.false_eq_true, if_false]
+  cases hs : (processMsgs st inbox).2.2 <;> simp only <;> (try split) <;>
+    exact ⟨htd, Aux.mem_ctrl_of_mem (by simp)⟩
+
+/-- non-vacuity: a healthy executor with a live worker, an empty queue, heartbeat due, retry budget exhausted -/
+example : TornDown (tickEnv Gen.healthTable { host := "h0", workers := [("h0.w0", .proc none false)], shm := none, data := none,
+                                               terminating := false } [] true true).1 :=
+  (c05_untold_executor_gives_up _ [] true rfl).1
+
+/-- EVERY EXECUTOR IS TORN DOWN — after normal completion and after a failure alike, any cluster shape, whatever was lost
+OF THE EXECUTOR-TO-CONTROLLER TRAFFIC on the way. From a start state (`InitN`) run ANY schedule `sched1` (ticks of any executors,
+deliveries, LOSSES, controller iterations) at the end of which `run` has returned or raised; then any further schedule `sched2`
+in which every executor gets to run at least one more iteration. Afterwards every executor has run `terminate` and has no child left.
+What is NOT covered (scope of the model, not of a hypothesis): (1) `StepN.lose` (`loseN`) drops only what executors have sent towards
+the controller; the controller's `ExecutorShutdown` is written straight into every registered node's inbox (`shutdownTo`), so a LOST
+ExecutorShutdown is not a behaviour of this model (on the real code such an executor is not told to stop; it gives up by itself when
+its heartbeat to the vanished controller has used up its retries -- iteration-level theorem `c05_retry_exhausted_fails`, observed
+on real clusters ~17 s after the run, not a theorem about the system); (2) every iteration of the N-model tears down with
+`terminate = terminateWith posix`, the environment in which SIGKILL + join ends a process (`KillWorks posix`); for environments in
+which it does not, see `c05_teardown` / `c05_teardown_needs_kill`. -/
 theorem c05_all_executors_torn_down (s0 : SysN) (h0 : InitN s0) (sched1 sched2 : List StepN)
     (hend : EndedN (runN Gen.healthTable s0 sched1))
     (hall : ∀ j, j < s0.nodes.length → StepN.tick j ∈ sched2) :
